@@ -136,7 +136,11 @@ const XSI: &str = "http://www.w3.org/2001/XMLSchema-instance";
 pub fn nil_template(items: &[(u8, u16, u16, u16)], rootsel: u16) -> String {
     let root_decl = [format!(" xmlns:xsi=\"{}\"", XSI), format!(" xmlns:xsi=\"{}\" xmlns:n=\"{}\"", XSI, XSI), String::new(), format!(" xmlns:n=\"{}\"", XSI)];
     let mut s = format!("<r{}>", root_decl[scale(rootsel, root_decl.len())]);
-    let decls = ["", " xmlns:xsi=\"urn:x\"", " xmlns:xsi=\"\"", " xmlns:n=\"urn:y\"", " xmlns:xsi=\"urn:x\" xmlns:n=\"urn:y\"", " xmlns=\"urn:d\""];
+    let decls = [
+        "".to_string(), " xmlns:xsi=\"urn:x\"".to_string(), " xmlns:xsi=\"\"".to_string(), " xmlns:n=\"urn:y\"".to_string(), " xmlns:xsi=\"urn:x\" xmlns:n=\"urn:y\"".to_string(), " xmlns=\"urn:d\"".to_string(),
+        // redundant re-declarations of the XSI namespace itself (same prefix, other prefixes)
+        format!(" xmlns:xsi=\"{}\"", XSI), format!(" xmlns:n=\"{}\"", XSI), format!(" xmlns:p=\"{}\"", XSI), format!(" xmlns:p=\"{}\" xmlns:xsi=\"{}\"", XSI, XSI),
+    ];
     let inners = ["", "t", "<zz/>", "<zz>t</zz>", "<zz><zz>x</zz></zz>", "<zz a=\"1\"/><zz b=\"2\"/>", "t<zz>u</zz>", "<e><e>x</e></e>", "<b/><c/>", "<zz xmlns:xsi=\"urn:z\"><zz/></zz>", "<![CDATA[c]]><zz/>"];
     let nils = [
         "", " xsi:nil=\"true\"", " n:nil=\"true\"", " xsi:nil=\"false\"", " xsi:nil=\"1\"", " nil=\"true\"",
@@ -177,7 +181,11 @@ fn run(ctx: &Ctx) {
     let valid_and_mutated = || {
         Box::new((any_val(), opts_strategy(), prop::collection::vec(edit_strategy(), 0..4), cuts_strategy()).prop_map(|(val, opts, edits, (sel, rnd))| {
             let doc = val.serialize_with(&opts).unwrap_or_else(|_| "<r/>".to_string());
-            let input = apply_edits(&doc, &edits);
+            let mut input = apply_edits(&doc, &edits);
+            // a byte-order mark in front of one document in sixteen (removed by both entry points)
+            if rnd.first().map_or(false, |x| x % 16 == 5) {
+                input.insert(0, '\u{feff}');
+            }
             let cuts = make_cuts(input.len(), sel, &rnd);
             Case { ty: val.ty(), input, cuts }
         }))
